@@ -1,7 +1,9 @@
 import Props.C10b
 import Props.C10c
+import Props.C10d
 #print axioms C10.linear_roundtrip
 #print axioms C10.alias_roundtrip
 #print axioms C10.roundtrip_pow
 #print axioms C10.power_law_roundtrip
 #print axioms C10.log_roundtrip
+#print axioms C10.hlg_roundtrip
